@@ -288,6 +288,18 @@ def goals_for(op, P, props):
                       [AMT >= 0, Q['tls'] > P['tls'], P['blim'] != U64_MAX], LV(Q['tls'], P) < P['blim'] * W))
         if mode == 'WithdrawOnly':
             G.append(('C16', 'c', f'{op}: a withdraw never creates more than dust of a debt', 'withdraw-no-borrow', [AMT >= 0], LV(Q['lsh'], P) - LV(P['lsh'], P) <= ZAT + 1))
+    # the four legs of a liquidation (C05): what the wrappers in their liquidation modes guarantee
+    if mode == 'BypassBorrowLimit':
+        G.append(('C05', 'f', f'{op}: seizing / paying no more than the position\'s deposit never creates a debt (collateral cannot flip into a liability)', 'seize-no-debt',
+                  [AMT >= 0, AMT <= AV(P['ash'], P)], z3.And(Q['lsh'] == P['lsh'], Q['tls'] == P['tls'])))
+        G.append(('C05', 'f', f'{op}: the position is debited at least the amount taken − eps (liquidator pays / liquidatee loses what is booked)', 'debit>=paid', [AMT >= 0], -position_delta(P) >= AMT - eps))
+        G.append(('C05', 'f', f'{op}: the position is debited at most the amount taken + eps (never more than the computed seizure)', 'debit<=paid', [AMT >= 0], -position_delta(P) <= AMT + eps))
+    if mode == 'BypassDepositLimit':
+        G.append(('C05', 'f', f'{op}: the liquidator is credited at most the collateral seized + 2 ulps', 'credit<=paid', [AMT >= 0], position_delta(P) <= AMT + 2))
+        G.append(('C05', 'f', f'{op}: the liquidator is credited at least the collateral seized − eps', 'credit>=paid', [AMT >= 0], position_delta(P) >= AMT - eps))
+    if mode == 'RepayOnly':
+        G.append(('C05', 'f', f'{op}: the liquidatee\'s debt falls by at most the amount repaid + 2 ulps and at least the amount − eps', 'repay-exact', [AMT >= 0],
+                  z3.And(position_delta(P) <= AMT + 2, position_delta(P) >= AMT - eps)))
     if op == 'withdraw_all':
         val = AV(P['ash'], P)
         G.append(('C03', 'c', 'withdraw_all pays out exactly floor(position value) (rounded against the user)', 'payout=floor', [], RET * W == (val / W) * W))
